@@ -7,8 +7,7 @@
         (keys[n] = rank of node n's name in string order: the pass iterates `sorted(dependencies[...])`;
          `pol=<p> rev=<0|1>` instead of keys selects the p-th permutation)
     fusion task   dag=<nodes> node=<n> index=<i>            -> "T <graph>#<args>"
-    fusion check  dag=<nodes> node=<n>                       -> OK | FAIL (fusedOK) ; OK-order | FAIL-order (nestOrderOK,
-                                                                  when a nested group is not in first position)
+    fusion check  dag=<nodes> node=<n>                       -> OK | FAIL         (fusedOK)
     fusion group  dag=<nodes> root=<n> group=a,b,c           -> OK | FAIL         (groupOKb)
     fusion planok dag=<nodes> root=<n>                       -> OK | FAIL         (planOKb)
     fusion measure dag=<nodes> root=<n>                      -> number of reachable blockwise nodes
@@ -122,10 +121,7 @@ def handle : List String → Option String
         | _, _ => some "BAD params"
       | "check" =>
         match (getNat kv "node").bind (getNode dag) with
-        | some f =>
-          -- nested groups in first position only: the hypothesis of C14_task; otherwise the order condition
-          if nestedFirstOnly dag f then some (if fusedOK dag f then "OK" else "FAIL")
-          else some (if nestOrderOK dag f then "OK-order" else "FAIL-order")
+        | some f => some (if fusedOK dag f then "OK" else "FAIL")
         | none => some "BAD params"
       | "group" =>
         match getNat kv "root", getNats kv "group" with
